@@ -16,6 +16,9 @@ echo "demo pristine rc=$r0  patched rc=$r1"
 tail -3 "$wt/.demo1"
 if [ "$nb" != "--no-baseline" ] && [ "$res" = CONFIRMED ]; then
   out="$(/venv/bin/python /verif/tools/baseline.py "$wt" 2>&1 | tail -3)"; echo "$out"
+  if ! echo "$out" | grep -q "missing=0"; then   # the pinned suite is flaky under load (hung pytest, timing tests): one retry
+    out="$(/venv/bin/python /verif/tools/baseline.py "$wt" 2>&1 | tail -3)"; echo "retry: $out"
+  fi
   echo "$out" | grep -q "missing=0" || res=REJECTED
 fi
 git -C /repo worktree remove --force "$wt"; git -C /repo worktree prune
